@@ -18,13 +18,15 @@ structure D where
   blocked : Bool := false
   jam : List Nat := []
   tick : Nat := 0
+  /-- the descriptor the rotator holds was closed behind its back: every call on it fails until the handle is dropped -/
+  fdBroken : Bool := false
 
 def D.init : D := { cfg := none, dir := #[], isOpen := false, size := 0, bound := 1, k := 0 }
 def D.st (d : D) : St := { files := ofArray d.dir, isOpen := d.isOpen, size := d.size }
 def D.ste (d : D) : StE := { st := d.st, tick := d.tick }
 /-- store a model state (the directory is tabulated on the indexes `< bound`) -/
 def D.put (d : D) (s : St) : D := { d with dir := toArray s.files d.bound, isOpen := s.isOpen, size := s.size }
-def D.putE (d : D) (s : StE) : D := { d.put s.st with tick := s.tick }
+def D.putE (d : D) (s : StE) : D := { d.put s.st with tick := s.tick, fdBroken := d.fdBroken && s.st.isOpen }
 
 /-- the environment the harness sets up: while the directory is blocked every call that takes a path fails (calls on
     the open descriptor do not); a jammed index fails every Remove/Rename that names it; `lim = some L` is a file size
@@ -35,10 +37,13 @@ def envOf (d : D) (lim : Option Nat) : Env :=
       | .mkdirAll => d.blocked
       | .stat => d.blocked
       | .openFile => d.blocked
-      | .remove i => d.blocked || d.jam.contains i
-      | .rename i j => d.blocked || d.jam.contains i || d.jam.contains j
-      | _ => false,
+      | .remove i ex => d.blocked || (ex && d.jam.contains i)
+      | .rename i j ex => d.blocked || (ex && (d.jam.contains i || d.jam.contains j))
+      | .closeFd => d.fdBroken
+      | .syncFd => d.fdBroken
+      | .writeFd => false,
     wr := fun _ cur want =>
+      if d.fdBroken then some 0 else
       match lim with
       | none => none
       | some L => if want = 0 ∨ cur + want ≤ L then none else some (L - cur) }
@@ -104,6 +109,8 @@ def doReset (o p : String) (jam : List Nat) : D × String :=
     | some r =>
       -- without a Path option the rotator would log to DefaultPath(): constructed, never written by the harness
       if !r.pathSet then (D.init, "new=ok defaultpath") else
+      -- a jammed index names a file that exists (the harness makes it immutable; index 0: append-only)
+      if jam.any (fun i => !pre.any (fun q => q.1 = i)) then (D.init, "bad-op") else
       let bound := (pre.foldl (fun m q => max m q.1) r.cfg.maxBackups) + 2
       let d := ({ D.init with cfg := some r.cfg, opts := opts, bound := bound, jam := jam }).put (fresh (preFiles pre))
       (d, "new=ok | " ++ obs d)
@@ -137,6 +144,14 @@ def step (d : D) (line : String) : D × String :=
   | ["unblock"] =>
     match d.cfg with
     | some _ => ({ d with blocked := false }, "unblock=ok")
+    | none => (d, "norot")
+  | ["breakfd"] =>
+    match d.cfg with
+    | some _ => if d.isOpen then ({ d with fdBroken := true }, "breakfd=ok") else (d, "breakfd=none")
+    | none => (d, "norot")
+  | ["unjam"] =>
+    match d.cfg with
+    | some _ => ({ d with jam := [] }, "unjam=ok")
     | none => (d, "norot")
   | ["close"] =>
     match d.cfg with
